@@ -14,7 +14,7 @@ INFO = {
                "through self (no assignment to, and no &mut borrow of, any field but `next`); no Get impl has an "
                "interior-mutable field; each record gets a Context freshly built from that record's parsed value; "
                "the Get impls that can reach the clock, the environment, the file system or other processes are "
-               "exactly now, env, exec and trigger. No stage but the limiter answers Break on its own (every process body evaluated with the successor answering Continue), and the tokenizer tables (dispatch, blanks, number grammar, escapes) accept every valid value wholly, so the reader is in phase for the value that follows.",
+               "exactly now, env, exec and trigger. No stage but the limiter answers Break on its own (every process body evaluated with the successor answering Continue), and the tokenizer tables (dispatch, blanks, number grammar, escapes) accept every valid value wholly, so the reader is in phase for the value that follows. No parse error depends on the reader's own state; files are read in argument order.",
     "not_decided": "The equation out(A.B) = out(A).out(B) itself (a statement about two runs).",
     "trusted": ["sa/tables/state.toml", "Rust: without interior mutability or statics a &self method cannot keep state"],
 }
@@ -89,6 +89,10 @@ def run(ctx, rep):
     _PRS.escapes(rep, lib)
     _PRS.ws_struct(rep, lib)
     _PRS.input_decides(rep, lib)
+    # concatenation of inputs given as files: the files are read in the order of the arguments, a directory in place
+    # (shared with C17)
+    from rules import c17 as _c17
+    _c17.files(rep, lib, ctx.cg)
     # ------------------------------------------------------------ FRESH-CONTEXT
     r = rep.rule("C11-FRESH-CONTEXT", "every record is processed in a Context built by Context::new_with_input in "
                  "the same loop iteration from that iteration's parsed value", floor=1, analysis="A2 + A4 in read_input")
